@@ -1,1 +1,170 @@
-//! placeholder
+//! Real-binary route: start the rws binary in a docroot, talk to it over loopback, inject connection faults,
+//! own the acceptor's schedule with SIGSTOP/SIGCONT, observe exit status and worker threads.
+#![allow(dead_code)]
+use std::io::{Read, Write};
+use std::net::{SocketAddr, TcpStream};
+use std::os::unix::io::AsRawFd;
+use std::path::{Path, PathBuf};
+use std::process::{Child, Command, Stdio};
+use std::time::{Duration, Instant};
+
+pub fn rws_bin() -> PathBuf { PathBuf::from(std::env::var("RWSV_RWS_BIN").unwrap_or_else(|_| format!("{}/.build/rws/release/rws", super::verif_dir()))) }
+
+/// A free loopback port (bind to 0, read it back, close). The port may be taken by someone else before the server binds it;
+/// `Server::start` retries with another one.
+pub fn free_port(ip: &str) -> u16 {
+    std::net::TcpListener::bind((ip, 0)).ok().and_then(|l| l.local_addr().ok()).map(|a| a.port()).unwrap_or(0)
+}
+
+pub struct ServerOpts {
+    pub docroot: PathBuf,
+    pub ip: String,
+    pub threads: u32,
+    /// extra environment variables (RWS_CONFIG_*), applied after the RWS_CONFIG_* variables of the harness's own environment are removed
+    pub env: Vec<(String, String)>,
+    pub args: Vec<String>,
+    /// None: the harness chooses a free port and passes it through the environment
+    pub port: Option<u16>,
+    pub pass_port_and_threads: bool,
+}
+
+impl ServerOpts {
+    pub fn new(docroot: &Path, threads: u32) -> ServerOpts { ServerOpts { docroot: docroot.to_path_buf(), ip: "127.0.0.1".into(), threads, env: vec![], args: vec![], port: None, pass_port_and_threads: true } }
+}
+
+pub struct Server {
+    pub child: Child,
+    pub addr: SocketAddr,
+    pub threads: u32,
+    pub log: PathBuf,
+    pub stopped: bool,
+}
+
+impl Drop for Server {
+    fn drop(&mut self) {
+        if self.stopped { unsafe { libc::kill(self.child.id() as i32, libc::SIGCONT); } }
+        let _ = self.child.kill();
+        let _ = self.child.wait();
+        let _ = std::fs::remove_file(&self.log);
+    }
+}
+
+static LOG_COUNTER: std::sync::atomic::AtomicU64 = std::sync::atomic::AtomicU64::new(0);
+
+impl Server {
+    pub fn start(opts: &ServerOpts) -> Result<Server, String> {
+        let mut last_err = String::new();
+        for _attempt in 0..5 {
+            let port = opts.port.unwrap_or_else(|| free_port(&opts.ip));
+            let n = LOG_COUNTER.fetch_add(1, std::sync::atomic::Ordering::SeqCst);
+            let log = super::scratch_base().join(format!("rwsv-server-{}-{}.log", std::process::id(), n));
+            let logf = std::fs::File::create(&log).map_err(|e| e.to_string())?;
+            let logf2 = logf.try_clone().map_err(|e| e.to_string())?;
+            let mut cmd = Command::new(rws_bin());
+            cmd.current_dir(&opts.docroot).stdin(Stdio::null()).stdout(logf).stderr(logf2);
+            for (k, _) in std::env::vars() { if k.starts_with("RWS_CONFIG_") { cmd.env_remove(k); } }
+            if opts.pass_port_and_threads {
+                cmd.env("RWS_CONFIG_IP", &opts.ip).env("RWS_CONFIG_PORT", port.to_string()).env("RWS_CONFIG_THREAD_COUNT", opts.threads.to_string());
+            }
+            for (k, v) in &opts.env { cmd.env(k, v); }
+            for a in &opts.args { cmd.arg(a); }
+            let child = cmd.spawn().map_err(|e| format!("spawn {}: {}", rws_bin().display(), e))?;
+            let addr: SocketAddr = format!("{}:{}", opts.ip, port).parse().map_err(|e| format!("{:?}", e))?;
+            let mut s = Server { child, addr, threads: opts.threads, log, stopped: false };
+            // readiness: the listener accepts connections (the probe connection is closed at once: the server sees an empty read and answers 400 into the void)
+            let deadline = Instant::now() + Duration::from_secs(5);
+            let mut ready = false;
+            while Instant::now() < deadline {
+                if let Ok(Some(st)) = s.child.try_wait() { last_err = format!("server exited during start-up with {:?}: {}", st, s.log_tail()); break; }
+                let text = std::fs::read_to_string(&s.log).unwrap_or_default();
+                if text.contains("Spawned ") { ready = true; break; }
+                std::thread::sleep(Duration::from_millis(2));
+            }
+            if ready { return Ok(s); }
+            if last_err.is_empty() { last_err = format!("server did not become ready: {}", s.log_tail()); }
+        }
+        Err(last_err)
+    }
+
+    pub fn log_tail(&self) -> String {
+        let t = std::fs::read_to_string(&self.log).unwrap_or_default();
+        let lines: Vec<&str> = t.lines().collect();
+        lines[lines.len().saturating_sub(6)..].join(" | ")
+    }
+
+    pub fn log_text(&self) -> String { std::fs::read_to_string(&self.log).unwrap_or_default() }
+
+    pub fn pid(&self) -> i32 { self.child.id() as i32 }
+
+    /// None while running, Some(description) once the process has gone.
+    pub fn exited(&mut self) -> Option<String> {
+        match self.child.try_wait() {
+            Ok(Some(st)) => { use std::os::unix::process::ExitStatusExt; Some(match (st.code(), st.signal()) { (Some(c), _) => format!("exit status {}", c), (_, Some(s)) => format!("signal {}", s), _ => "gone".into() }) }
+            _ => None,
+        }
+    }
+
+    /// Names of the threads of the server process (workers are named "0".."N-1").
+    pub fn thread_names(&self) -> Vec<String> {
+        let mut v = vec![];
+        if let Ok(rd) = std::fs::read_dir(format!("/proc/{}/task", self.pid())) {
+            for e in rd.filter_map(|e| e.ok()) { if let Ok(c) = std::fs::read_to_string(e.path().join("comm")) { v.push(c.trim().to_string()); } }
+        }
+        v.sort();
+        v
+    }
+
+    pub fn missing_workers(&self) -> Vec<u32> {
+        let names = self.thread_names();
+        (0..self.threads).filter(|i| !names.contains(&i.to_string())).collect()
+    }
+
+    pub fn sigstop(&mut self) { unsafe { libc::kill(self.pid(), libc::SIGSTOP); } self.stopped = true; }
+    pub fn sigcont(&mut self) { unsafe { libc::kill(self.pid(), libc::SIGCONT); } self.stopped = false; }
+
+    pub fn connect(&self) -> std::io::Result<TcpStream> {
+        let s = TcpStream::connect_timeout(&self.addr, Duration::from_secs(3))?;
+        s.set_nodelay(true).ok();
+        Ok(s)
+    }
+
+    /// Send one request with a single write and read until the server closes (or the time limit).
+    pub fn roundtrip(&self, request: &[u8], limit: Duration) -> Exchange {
+        let mut s = match self.connect() { Ok(s) => s, Err(e) => return Exchange { bytes: vec![], outcome: Outcome::ConnectFailed(e.to_string()) } };
+        if let Err(e) = s.write_all(request) { return Exchange { bytes: vec![], outcome: Outcome::WriteFailed(e.to_string()) }; }
+        // nothing to send: half-close, otherwise the server (which has no read timeout) and this client wait for each other
+        if request.is_empty() { let _ = s.shutdown(std::net::Shutdown::Write); }
+        read_all(&mut s, limit)
+    }
+}
+
+#[derive(Debug, Clone, PartialEq)]
+pub enum Outcome { Closed, Reset(String), TimedOut, ConnectFailed(String), WriteFailed(String) }
+
+#[derive(Debug, Clone)]
+pub struct Exchange { pub bytes: Vec<u8>, pub outcome: Outcome }
+
+pub fn read_all(s: &mut TcpStream, limit: Duration) -> Exchange {
+    let mut bytes = vec![];
+    let deadline = Instant::now() + limit;
+    let mut buf = [0u8; 65536];
+    loop {
+        let left = deadline.saturating_duration_since(Instant::now());
+        if left.is_zero() { return Exchange { bytes, outcome: Outcome::TimedOut }; }
+        s.set_read_timeout(Some(left.max(Duration::from_millis(1)))).ok();
+        match s.read(&mut buf) {
+            Ok(0) => return Exchange { bytes, outcome: Outcome::Closed },
+            Ok(n) => bytes.extend_from_slice(&buf[..n]),
+            Err(e) if e.kind() == std::io::ErrorKind::WouldBlock || e.kind() == std::io::ErrorKind::TimedOut => return Exchange { bytes, outcome: Outcome::TimedOut },
+            Err(e) if e.kind() == std::io::ErrorKind::Interrupted => continue,
+            Err(e) => return Exchange { bytes, outcome: Outcome::Reset(e.to_string()) },
+        }
+    }
+}
+
+/// Close with RST instead of FIN (SO_LINGER with zero timeout).
+pub fn reset(s: TcpStream) {
+    let l = libc::linger { l_onoff: 1, l_linger: 0 };
+    unsafe { libc::setsockopt(s.as_raw_fd(), libc::SOL_SOCKET, libc::SO_LINGER, &l as *const _ as *const libc::c_void, std::mem::size_of::<libc::linger>() as libc::socklen_t); }
+    drop(s);
+}
